@@ -19,6 +19,7 @@ from __future__ import annotations
 import base64
 import collections
 import hashlib
+import itertools
 import json
 import logging
 import os
@@ -1606,6 +1607,118 @@ def eval_empty_hash(case):
     return out
 
 
+# ---------------------------------------------------------------------------
+# part hash_text: what is stored in the hash field (a plaintext password, or anything handed to set_hash) either is
+# refused with ValueError -- file unchanged -- or comes back, from the exported text, as exactly that user's hash
+# ---------------------------------------------------------------------------
+HASH_SIGMA = ("a", ":", "\n", "\r", " ", "\t", "#", "\u00e9", "$", "\x00")
+
+
+def hash_texts(maxlen):
+    out = []
+    for n in range(1, maxlen + 1):
+        for t in itertools.product(HASH_SIGMA, repeat=n):
+            out.append("".join(t))
+    return out
+
+
+def eval_hash_text(case):
+    import passlib.apache as A
+    from passlib.context import CryptContext
+
+    how, enc, text, form = case["how"], case["enc"], case["text"], case["form"]
+    out = []
+    key = f"C16|{'htdigest' if how == 'digest_set_hash' else 'htpasswd'}|hash_text:{how}:"
+    cls_of = lambda t: "newline" if "\n" in t else "colon" if ":" in t else "trailing_blank" if t != t.rstrip() else "other"  # noqa: E731
+    try:
+        raw = text.encode(enc)
+    except UnicodeEncodeError:
+        return out
+    arg = text if form == "text" else raw
+    base = b"# c\nalice:x\n" if how != "digest_set_hash" else b"# c\nalice:r:x\n"
+    try:
+        if how == "plaintext_set_password":
+            ht = A.HtpasswdFile.from_string(base, context=CryptContext(["plaintext"]), encoding=enc)
+            call = lambda: ht.set_password("bob", arg)  # noqa: E731
+            nf, k = 2, b"bob"
+        elif how == "set_hash":
+            ht = A.HtpasswdFile.from_string(base, encoding=enc)
+            call = lambda: ht.set_hash("bob", arg)  # noqa: E731
+            nf, k = 2, b"bob"
+        else:
+            ht = A.HtdigestFile.from_string(base, encoding=enc)
+            call = lambda: ht.set_hash("bob", "r", arg)  # noqa: E731
+            nf, k = 3, (b"bob", b"r")
+        before = ht.to_string()
+        try:
+            call()
+        except ValueError:
+            if ht.to_string() != before:
+                out.append((key + "refused_but_changed", f"{how}({arg!r}) [{enc}] raised ValueError but the file changed: {ht.to_string()!r}"))
+            return out
+        data = ht.to_string()
+        items, first, counts, bad = read_db(data, nf)
+        ka = b"alice" if nf == 2 else (b"alice", b"r")
+        if bad or set(first) != {ka, k} or counts[k] != 1 or first.get(ka) != b"x" or first.get(k) != raw:
+            out.append((key + f"accepted_not_faithful:{cls_of(text)}", f"{how}({arg!r}) [{enc}] was accepted; the exported text {data!r} reads back as {first!r} (malformed lines {bad!r}), expected alice and bob -> {raw!r}"))
+            return out
+        if how == "plaintext_set_password":
+            back = A.HtpasswdFile.from_string(data, context=CryptContext(["plaintext"]), encoding=enc)
+            for obj, lbl in ((ht, "live"), (back, "reloaded")):
+                for pw, want in ((arg, True), (text, True), (raw, True), (text + "x", False)):
+                    got = obj.check_password("bob", pw)
+                    if got is not want:
+                        out.append((key + f"check_password:{lbl}:{'right' if want else 'wrong'}", f"plaintext password {arg!r} [{enc}] ({lbl} object): check_password('bob', {pw!r}) = {got!r}, expected {want}"))
+                        break
+        g = ht.get_hash("bob") if nf == 2 else ht.get_hash("bob", "r")
+        want_g = raw if nf == 2 else raw.decode(enc)
+        if g != want_g or type(g) is not type(want_g):
+            out.append((key + "get_hash", f"{how}({arg!r}) [{enc}]: get_hash = {g!r}, expected {want_g!r}"))
+    except Exception as e:  # noqa: BLE001
+        out.append((key + f"raises:{type(e).__name__}:{cls_of(text)}", f"{how}({arg!r}) [{enc}]: raised {e!r}"))
+    return out
+
+
+def eval_upgrade_type(case):
+    """after check_password upgraded a deprecated hash, get_hash() / the export show the new hash like any other record"""
+    import passlib.apache as A
+    from passlib.context import CryptContext
+    from passlib.hash import ldap_md5
+
+    out = []
+    ctx = CryptContext(["ldap_salted_sha1", "ldap_md5"], deprecated=["ldap_md5"])
+    ht = A.HtpasswdFile.from_string(b"alice:x\n", context=ctx, encoding=case["enc"])
+    ht.set_hash("bob", ldap_md5.hash("pw"))
+    t0 = type(ht.get_hash("bob"))
+    ok = ht.check_password("bob", "pw")
+    g = ht.get_hash("bob")
+    items, first, counts, bad = read_db(ht.to_string(), 2)
+    if ok is not True or not isinstance(g, t0) or first.get(b"bob") != (g if isinstance(g, bytes) else None) or not first.get(b"bob", b"").startswith(b"{SSHA}"):
+        out.append(("C16|htpasswd|upgrade:stored_form", f"after the upgrade get_hash('bob') = {g!r} (was a {t0.__name__}); the export reads {first.get(b'bob')!r}"))
+    return out
+
+
+def hash_text_cases(quick):
+    cases = [{"part": "hash_text", "how": how, "enc": enc, "text": t, "form": form, "mode": "normal"}
+             for how in ("plaintext_set_password", "set_hash", "digest_set_hash") for enc in ("utf-8", "latin-1")
+             for t in hash_texts(2 if quick else 3) for form in ("text", "bytes")]
+    cases += [{"part": "hash_text", "how": "upgrade_type", "enc": enc, "text": "", "form": "text", "mode": "normal"} for enc in ("utf-8", "latin-1")]
+    return cases
+
+
+def work_hash_text(task):
+    acc = Acc()
+    for case in task["cases"]:
+        acc.ev()
+        vs = eval_upgrade_type(case) if case["how"] == "upgrade_type" else eval_hash_text(case)
+        acc.cls("hash_text", case["how"], case["enc"], case["form"], tuple(sorted(set(case["text"]))), len(case["text"]))
+        acc.axis("hash_text_entry", case["how"])
+        acc.outcome(("hash_text", "viol" if vs else "ok"))
+        for key, desc in vs:
+            acc.violation(key, desc, case)
+    return acc
+
+
 def empty_hash_cases():
     return [{"part": "empty_hash", "how": h, "form": f, "mode": "normal"}
             for h in ("set_password_plaintext_default", "set_password_plaintext_context", "set_hash_empty", "file_line") for f in ("text", "bytes")]
@@ -1796,6 +1909,8 @@ def run_task(task):
             return work_isolation(task)
         if part == "empty_hash":
             return work_empty_hash(task)
+        if part == "hash_text":
+            return work_hash_text(task)
         if part == "race":
             return work_race(task)
         raise HarnessError(f"unknown part {part}")
@@ -1867,6 +1982,7 @@ def run(ctx):
         return
     ctx.merge(work({"part": "empty_hash", "cases": empty_hash_cases()}), part="empty_hash")
     ctx.merge(work({"part": "race", "cases": race_cases(ctx.seed)}), part="race")
+    ctx.merge(work({"part": "hash_text", "cases": hash_text_cases(quick)}), part="hash_text")
     singles, batches = [], {"normal": [], "O": []}
     for mode in ("normal", "O"):
         for cfg in roots(quick, ctx.seed):
@@ -1959,6 +2075,8 @@ def _replay_here(case):
             return eval_isolation(case)
         if part == "empty_hash":
             return eval_empty_hash(case)
+        if part == "hash_text":
+            return eval_upgrade_type(case) if case["how"] == "upgrade_type" else eval_hash_text(case)
         if part == "race":
             return eval_race(case)[0]
         raise HarnessError(f"unknown case part {part}")
